@@ -1304,3 +1304,57 @@ reg.add(Proc(
                c.l['$yield'], Concat(subsall(_all_sub_entries(c), c.l['$i_L0']), expand(_all_sub_entries(c)[c.l['$i_L0']], c.i)))),
                ('nothing-changes', z3.And(c.h('$dict') == c.h0('$dict'), c.h('$list') == c.h0('$list')))])},
 ))
+
+
+# ------------------------------------------------------------------ _createLookup: the delegated lookup methods follow the NEW lookup object
+DELEG = z3.Const('BaseAdapterRegistry__delegated', SeqN)            # the tuple of method names copied from the lookup object
+bound_method = z3.Function('bound_method_of', Obj, Name, Obj)       # getattr(lookup_object, name)
+reg.fields['__dict__'] = DICT
+reg.assumptions.append('_createLookup: self.LookupClass(self) yields a new lookup object for the registry (its caches are empty, C05); getattr(lookup, name) '
+                       'is the method of THAT object (uninterpreted, injective in the object is not needed)')
+
+
+def _lookup_class(ex, node, st, recv=None):
+    r = ex.fresh_ref(st, 'lookup')
+    ex.write_field(st, r, '_registry', vobj(ex.args['self'].t))
+    return [(st, vobj(r))]
+
+
+def _getattr_method(ex, node, st):
+    out = []
+    for s, (o, n) in ex.ev_list(node.args, st):
+        out.append((s, vobj(bound_method(box(o), n.t if n.ty.kind == 'name' else unbox_name(box(n))))))
+    return out
+
+
+def _cl_L0(c):
+    j = z3.Int('cl_j')
+    s = c.a.self
+    d = c.h('$dict')[c.h('__dict__')[s]]
+    o = z3.Const('cl_o', Obj)
+    return [('the-first-i-names-are-bound-to-the-new-lookup-object', ForAllP([j], z3.Implies(z3.And(0 <= j, j < c.i),
+             d[box_name(DELEG[j])] == bound_method(c.h('_v_lookup')[s], DELEG[j])), patterns=[DELEG[j]])),
+            ('the-new-lookup-object-stays', z3.And(c.h('_v_lookup') == c.hL('_v_lookup'), c.h('__dict__') == c.h0('__dict__'),
+                                                   c.h('$list') == c.h0('$list'))),
+            ('only-the-own-instance-dictionary-changes', ForAllP([o], z3.Implies(o != c.h0('__dict__')[s], c.h('$dict')[o] == c.h0('$dict')[o]),
+                                                                 patterns=[c.h('$dict')[o]]))]
+
+
+reg.add(Proc(
+    A + 'BaseAdapterRegistry._createLookup', [('self', OBJ)], source='adapter.py:BaseAdapterRegistry._createLookup',
+    calls={'self.LookupClass': _lookup_class, 'getattr': _getattr_method},
+    dynattr={'_delegated': lambda ex, node, st, recv: [(st, V(SEQN, DELEG))], '__dict__': lambda ex, node, st, recv: [(st, V(DICT, st.heap.get('__dict__')[recv.t]))]},
+    modifies=['_v_lookup', '$dict', '$alloc', '_registry'],
+    requires=lambda c: [('the-registry-has-an-instance-dictionary', c.h('__dict__')[c.a.self] != NONE)],
+    ensures=lambda c: [
+        ('a-new-lookup-object-for-this-registry', z3.And(z3.Not(c.h0('$alloc')[c.h('_v_lookup')[c.a.self]]),
+                                                        c.h('_registry')[c.h('_v_lookup')[c.a.self]] == c.a.self)),
+        ('every-delegated-method-is-that-of-the-new-lookup-object', ForAllP([z3.Int('cq_j')], z3.Implies(
+            z3.And(0 <= z3.Int('cq_j'), z3.Int('cq_j') < L(DELEG)),
+            c.h('$dict')[c.h('__dict__')[c.a.self]][box_name(DELEG[z3.Int('cq_j')])] == bound_method(c.h('_v_lookup')[c.a.self], DELEG[z3.Int('cq_j')])),
+            patterns=[DELEG[z3.Int('cq_j')]])),
+        ('only-the-own-instance-dictionary-changes', ForAllP([z3.Const('cq_o', Obj)], z3.Implies(
+            z3.Const('cq_o', Obj) != c.h0('__dict__')[c.a.self], c.h('$dict')[z3.Const('cq_o', Obj)] == c.h0('$dict')[z3.Const('cq_o', Obj)]),
+            patterns=[c.h('$dict')[z3.Const('cq_o', Obj)]]))],
+    loops={'L0': Loop(_cl_L0)},
+))
